@@ -5,6 +5,7 @@ import (
 	"encoding/binary"
 	"fmt"
 	"path/filepath"
+	"reflect"
 	"sort"
 	"strings"
 
@@ -100,6 +101,21 @@ func buildBaselines(es []*entry) ([]*baseline, error) {
 	if len(structs) != len(goTypes) {
 		return nil, fmt.Errorf(".tars files define %d structs, the harness knows %d Go types", len(structs), len(goTypes))
 	}
+	if len(extraTypes) > 0 {
+		extra, err := ref.LoadIDL(filepath.Join(common.Root(), "checks/c05/c05arrays/C05Arrays.tars"))
+		if err != nil {
+			return nil, err
+		}
+		for _, st := range extra.AllStructs() {
+			if extraTypes[st.QName()] == nil {
+				return nil, fmt.Errorf("no generated Go type registered for %s", st.QName())
+			}
+			if err := ref.CheckGoType(ref.StructOf(st), reflect.TypeOf(extraTypes[st.QName()]()).Elem()); err != nil {
+				return nil, err
+			}
+			structs = append(structs, st)
+		}
+	}
 	var out []*baseline
 	add := func(name, kind string, b []byte, owners ...int) {
 		for _, o := range out {
@@ -111,7 +127,7 @@ func buildBaselines(es []*entry) ([]*baseline, error) {
 	}
 	sort.Slice(structs, func(i, j int) bool { return structs[i].QName() < structs[j].QName() })
 	for _, st := range structs {
-		if goTypes[st.QName()] == nil {
+		if structMaker(st.QName()) == nil {
 			return nil, fmt.Errorf("no Go type registered for %s", st.QName())
 		}
 		rf, rb := mustIdx(es, "ReadFrom("+st.QName()+")"), mustIdx(es, "ReadBlock("+st.QName()+")")
@@ -238,8 +254,8 @@ type family struct {
 // nested container, an extended-tag head, and the boundary payload bytes.
 var alphabet24 = []byte{0x00, 0x01, 0x02, 0x03, 0x04, 0x05, 0x06, 0x07, 0x08, 0x09, 0x0a, 0x0b, 0x0c, 0x0d,
 	0x10, 0x16, 0x18, 0x19, 0x1a, 0x1d, 0xf6, 0x7f, 0x80, 0xff}
-var alphabet12 = []byte{0x00, 0x01, 0x06, 0x08, 0x09, 0x0a, 0x0b, 0x0c, 0x0d, 0x10, 0x7f, 0xff}
 var alphabet8 = []byte{0x00, 0x06, 0x08, 0x09, 0x0a, 0x0c, 0x0d, 0xff}
+var alphabet12 = []byte{0x00, 0x01, 0x06, 0x08, 0x09, 0x0a, 0x0b, 0x0c, 0x0d, 0x10, 0x7f, 0xff}
 
 // hostile constants for embedded lengths
 func hostileLengths(remaining int64) []int64 {
@@ -547,7 +563,7 @@ func buildFamilies(c *famCtx, only string) ([]*family, error) {
 				sel = append(sel, bl)
 			}
 		}
-		a := alphabet12
+		a := alphabet24
 		var offs []int64
 		total := int64(0)
 		for _, bl := range sel {
@@ -556,7 +572,7 @@ func buildFamilies(c *famCtx, only string) ([]*family, error) {
 			total += n * (n - 1) / 2 * int64(len(a)*len(a))
 		}
 		fams = append(fams, &family{name: "mutate2", n: total, chunk: 16384, udpFramed: true,
-			bounds: fmt.Sprintf("%d baselines (packets, argument buffers, attribute sets and the all-non-default encoding of every struct, 2..160 bytes) x every pair of positions p<q x every pair of symbols of the 12-symbol alphabet % x, on the baseline's own entries", len(sel), a),
+			bounds: fmt.Sprintf("%d baselines (packets, argument buffers, attribute sets and the all-non-default encoding of every struct, 2..160 bytes) x every pair of positions p<q x every pair of symbols of the %d-symbol alphabet % x, on the baseline's own entries", len(sel), len(a), a),
 			gen: func(i int64) ([]byte, string, []int) {
 				k := sort.Search(len(offs), func(j int) bool { return offs[j] > i }) - 1
 				bl := sel[k]
@@ -637,6 +653,45 @@ func buildFamilies(c *famCtx, only string) ([]*family, error) {
 			16, false, cs))
 	}
 
+	// 6b. fixed arrays: a LIST longer than the array, complete with its elements
+	if want("array-overrun") {
+		var cs []listedCase
+		for _, bl := range c.bases {
+			bl := bl
+			if !strings.Contains(bl.Name, "c05arrays::Arrays") {
+				continue
+			}
+			p, err := ref.ParseWith(bl.Bytes, ref.ParseOptions{AnyOrder: true})
+			if err != nil {
+				return nil, err
+			}
+			fs := p.Fields
+			if bl.Kind == "block" {
+				fs = fs[0].Kids
+			}
+			for _, f := range fs {
+				if f.Type != ref.WList || len(f.Kids) == 0 || f.Tag > 2 { // tags 0..2 are the array members of C05Arrays.tars
+					continue
+				}
+				f := f
+				for _, extra := range []int{1, 2, 100} {
+					extra := extra
+					g := f.Clone()
+					g.Len = nil
+					for i := 0; i < extra; i++ {
+						g.Kids = append(g.Kids, f.Kids[len(f.Kids)-1].Clone())
+					}
+					repl := g.Bytes()
+					cs = append(cs, listedCase{label: fmt.Sprintf("%s: array member with tag %d (declared size %d) sent as a well-formed LIST of %d elements", bl.Name, f.Tag, len(f.Kids), len(g.Kids)),
+						ents: filterOwners(c, bl.Owners, len(bl.Bytes)+len(repl)), make: func() []byte { return splice(bl.Bytes, f.Start, f.End, repl) }})
+				}
+			}
+		}
+		fams = append(fams, listFamily("array-overrun",
+			"struct with fixed-size array members generated at check time by the working-tree tars2go (C05Arrays.tars: int[4], string[2], struct[3]): every array member of every baseline sent as a well-formed LIST with 1, 2 and 100 elements more than the declared size; announced lengths beyond the size with too few elements are part of length-bomb and mutate1",
+			16, false, cs))
+	}
+
 	// 7. nesting bombs
 	scales := []int{1, 1000, 100000, 1000000, 0} // 0 = as deep as the maximal packet allows
 	if want("nest-head") {
@@ -683,7 +738,7 @@ func buildFamilies(c *famCtx, only string) ([]*family, error) {
 				}})
 		}
 		fams = append(fams, listFamily("nest-head",
-			"10 nesting constructs (StructBegin x d; LIST-of-LIST; MAP-of-MAP; struct/list/map alternating; each left open at the end of input and closed; LIST-of-LIST announcing 2^31-1 and MAP-of-MAP announcing 2^30-1 elements per level) x depth {1,10^3,10^5,10^6, as deep as a 10 MiB frame allows} as a tag-0 field at the start of the input (skipped as unknown wherever tag 0 is not a member), plus each construct filling a 65 531-byte datagram; every entry (quick: depth>=10^5 on the 19 representative entries)",
+			"10 nesting constructs (StructBegin x d; LIST-of-LIST; MAP-of-MAP; struct/list/map alternating; each left open at the end of input and closed; LIST-of-LIST announcing 2^31-1 and MAP-of-MAP announcing 2^30-1 elements per level) x depth {1,10^3,10^5,10^6, as deep as a 10 MiB frame allows} as a tag-0 field at the start of the input (skipped as unknown wherever tag 0 is not a member), plus each construct filling a 65 531-byte datagram; every entry (quick: depth>=10^5 on the "+fmt.Sprint(len(c.reps))+" representative entries)",
 			1, true, cs))
 	}
 	if want("nest-insert") {
